@@ -128,7 +128,11 @@ def impl_str_to_int(ver, a):
 def impl_int_to_str(v, d):
     from netaddr.strategy import eui48, eui64
     c = _dialect(d)
-    return (eui64 if c.word_size * c.num_words == 64 else eui48).int_to_str(v, c)
+    m = eui64 if c.word_size * c.num_words == 64 else eui48
+    r = m.int_to_str(v, c)
+    if c is (eui64.eui64_base if m is eui64 else eui48.mac_eui48):     # the documented default: leaving it out is the same call
+        assert m.int_to_str(v) == r, "int_to_str without a dialect differs from the default dialect"
+    return r
 
 
 def impl_init(a, ver, d):
